@@ -75,9 +75,9 @@ def first_failing_steps(ctx, scn, steps, pid):
     """-> {check name: index of the first step at which the check fails}"""
     lines = ["mon-reset " + S.cfg_words(scn["cfg"])]
     marks = []
-    for s in steps:
+    for s, mobs in zip(steps, S.monitor_obs(steps)):
         lines.append("mon-ev " + s["ev"])
-        lines += ["mon-ob " + o for o in s["obs"]]
+        lines += ["mon-ob " + o for o in mobs]
         lines.append("mon-" + s["snap"])
         lines.append("mon-end " + pid)
         marks.append(len(lines) - 1)
@@ -98,9 +98,13 @@ def tags_for(name, scn, steps, idx, first):
             return [KNOWN_JOIN_DURING_STOP]
         return ["join-with-live-consumers"]
     if name == "gracefulDrain":
-        # known: stop() (the step that finishes it) hard-stops consumers that a rejoin's on_join_prepare is draining
+        # known: stop() (the step that finishes it) hard-stops consumers that a rejoin's on_join_prepare is draining:
+        # the state BEFORE the step must be mid-prepare (`st` of the previous step: the implementation's in the scripted
+        # stage, the agreeing model's in the full-stack stage); a stop() that hard-stops consumers in any other state is new
         w = ev.split()
-        if w and w[0] in ("stop", "leaveDone") and "snap" in steps[idx] and "stopping=1" in steps[idx]["snap"]:
+        pre_st = steps[idx - 1].get("st") if idx else ""
+        mid_prepare = pre_st is None or "jpc=prepare" in pre_st
+        if w and w[0] in ("stop", "leaveDone") and "snap" in steps[idx] and "stopping=1" in steps[idx]["snap"] and mid_prepare:
             return [KNOWN_STOP_KILLS_DRAINING]
         return ["gracefulDrain"]
     if name == "leaveAfterDrain":
@@ -115,9 +119,12 @@ def tags_for(name, scn, steps, idx, first):
             return [KNOWN_SECOND_STOP]
         return ["leaveAfterDrain"]
     if name == "strictAfterStop":
-        obs = steps[idx]["obs"] if idx is not None and idx < len(steps) else []
-        if any(o.split()[0] in ("join", "sync", "loadParts") for o in obs if o):
-            return ["strictAfterStop-join-or-sync"]
+        # known: heartbeats / coordinator look-ups while stop() drains.  The monitor reports its FIRST failing step only,
+        # so every LATER step of the trace is looked at too: a JoinGroup / SyncGroup / partition load after stop() was
+        # called is a different violation and must not hide behind an earlier known heartbeat
+        for st in steps[idx:] if idx is not None else []:
+            if any(isinstance(o, str) and o and o.split()[0] in ("join", "sync", "loadParts") for o in st["obs"]):
+                return ["strictAfterStop-join-or-sync"]
         return [KNOWN_REQS_DURING_STOP_DRAIN]
     if name in ("neverIdle", "escapeSurfaces"):
         w = ev.split()
@@ -423,7 +430,7 @@ def _worker_fullstack(args):
     rng = random.Random(seed)
     sc = FS.gen_scenario(rng, flavour=seed % 4)
     run = FS.run_fullstack(seed, sc)
-    out = {"seed": seed, "scenario": sc, "error": run.error, "problems": run.problems[:5], "members": []}
+    out = {"seed": seed, "scenario": sc, "error": run.error, "problems": run.problems[:5], "members": [], "stats": run.stats}
     for mlog in ([] if run.error else run.logs):
         dis, failing, steps, scn = FS.check_member(ctx, mlog, pid)
         mfs = classify(ctx, scn, steps, pid, failing) if failing else []
@@ -433,6 +440,10 @@ def _worker_fullstack(args):
                                "hard_stops": sum(1 for st in steps for o in st["obs"] if o.startswith("consumerStop")),
                                "errors_seen": sorted(set(s["ev"] for s in steps if " err:" in s["ev"]))})
     return out
+
+
+# end-to-end findings that are about C17 (liveness); every other `e2e-*` tag is about C16 (fencing)
+E2E_C17 = ("e2e-not-stable-after-faults", "e2e-client-call-never-completes")
 
 
 def run_fullstack_stage(ctx, res, pid, seeds, pool, seen):
@@ -446,8 +457,13 @@ def run_fullstack_stage(ctx, res, pid, seeds, pool, seen):
             res.notes.append("fullstack seed %d: %s" % (r["seed"], r["error"]))
             continue
         for f in r["scenario"].get("faults", []):
-            res.count("fullstack:fault:" + ("outage-" + ("failover" if f["elect"] else "comes-back") if "outage" in f else "slow-" + f["delay"] if "delay" in f else
+            res.count("fullstack:fault:" + ("coordinator-moves" + ("-state-lost" if f.get("lose_state") else "") if "move" in f else
+                                            "outage-" + ("failover" if f["elect"] else "comes-back") if "outage" in f else "slow-" + f["delay"] if "delay" in f else
                                             "silent-" + f["silent"] if "silent" in f else "error-" + f["api"]))
+        if r["scenario"].get("grow"):
+            res.count("fullstack:fault:topic-grows-partitions")
+        for k, v in sorted((r.get("stats") or {}).items()):
+            res.count("fullstack:coordinator:" + k, v)
         for m in r["members"]:
             res.traces_validated += 1
             res.count("fullstack:member-steps", m["steps"])
@@ -470,9 +486,7 @@ def run_fullstack_stage(ctx, res, pid, seeds, pool, seen):
                     res.monitor_failures.append(mf)
         for pr in r["problems"]:
             tag = pr["tags"][0]
-            if pid == "C17" and tag != "e2e-not-stable-after-faults":
-                continue
-            if pid == "C16" and tag == "e2e-not-stable-after-faults":
+            if (pid == "C17") != (tag in E2E_C17):
                 continue
             res.count("monitor_fail:" + tag)
             if tag not in seen:
@@ -490,14 +504,18 @@ RULE = {
            "(member leader or follower; assignments growing/shrinking/moving; every group error kind on every request; heartbeat failures during joins; "
            "consumer errors; shutdown completions ok/failed; stop at any point; timers early/late; the documented API start()/stop() issued in EVERY state - before start, "
            "while started, while a stop drains, while leaving, after the stop - with RestopError/RestartError as observations), plus bounded-exhaustive enumeration of every environment move "
-           "(incl. start and stop in every state) from eight start states. Every step compares observations, inspected state and pending delayed calls with the Lean model; the Lean C16 monitors run on the "
+           "(incl. start and stop in every state) from eight start states. Every step compares observations, inspected state and pending delayed calls with the Lean model (a delayed call of a kind the model does not have is the observation `setTimer <id> other`, "
+           "a disagreement, and is fired by the generator like any timer); the Lean C16 monitors run on the "
            "implementation trace. FULL STACK: 2-3 real members, each over its own real KafkaClient and real Consumers, against the simulated coordinator "
            "(join windows up to 25 s, group error codes injected on JoinGroup/SyncGroup/Heartbeat/FindCoordinator/OffsetCommit/OffsetFetch, silent heartbeats, slow OffsetCommit replies with an "
-           "eviction meanwhile (consumers hard-stopped with a commit in flight), the coordinator broker down for 15-40 s and back or failing over, a member stopping); "
+           "eviction meanwhile (consumers hard-stopped with a commit in flight), the coordinator broker down for 15-40 s and back or failing over, the coordinator MOVING to another live broker - with or without losing the group's state, "
+           "i.e. every member kicked - while commits are on their way to a slow old coordinator and look-ups are slow (several NOT_COORDINATOR replies for the group at different instants), "
+           "a topic GROWING partitions between generations (the next rebalance hands out the new ones), a member stopping; what the coordinator went through is in the histogram: "
+           "fullstack:coordinator:generations / leader-changes / session-expired / member-dropped / member-left / state-lost / consumers-on-grown-partitions); "
            "each member's trace at the group/client boundary is validated against the model and fed to the same monitors, EVERY fetch/commit call of every real partition consumer is recorded into "
            "the composed trace (product model Afkak.GroupCompose; monitors composedCommitIds/composedLive/composedFenced), and running consumers / commits are compared with the "
            "coordinator's generation and assignment. non-trivial = at least one consumer was started and later shut down or stopped (a rebalance, an eviction or a stop happened).",
-    "C17": "FULL STACK as for C16 with the end-to-end check that every member not stopped is a stable member within 200 virtual seconds after the last fault (joins may take up to 35 s). "
+    "C17": "FULL STACK as for C16 with the end-to-end check that every member not stopped is a stable member within 200 virtual seconds after the last fault (joins may take up to 35 s), and that a member whose join or heartbeat is 'in flight' has seen a reply within the last 120 virtual seconds (a client call that never completes = busy in name only). "
            "Scripted: same scenarios as C16 (scripted environment, on-line generation, bounded-exhaustive failure sequences at every step of the join protocol); after EVERY step the "
            "harness inspects _rejoin_d / heartbeat looper / reactor delayed calls / start's Deferred and the Lean C17 monitors run on that trace. "
            "non-trivial = at least one failure (error reply or consumer error) was injected while the member was started and not stopping.",
@@ -604,7 +622,7 @@ def replay(ctx, data, pid):
             if dis:
                 rc = 1
         for pr in run.problems:
-            if (pid == "C17") == (pr["tags"][0] == "e2e-not-stable-after-faults"):
+            if (pid == "C17") == (pr["tags"][0] in E2E_C17):
                 print("end-to-end: %s -- %s" % (pr["what"], pr["detail"]))
                 rc = 1
         if rc:
